@@ -72,11 +72,11 @@ func sameLiteralValue(a, b bytes.Bytes) bool {
 	if ga.IsString() || gb.IsString() {
 		return ga.IsString() && gb.IsString() && a.Unquote().String() == b.Unquote().String()
 	}
-	na, err := json.NewNumber(a)
+	na, err := json.ParseNumber(a)
 	if err != nil {
 		return false
 	}
-	nb, err := json.NewNumber(b)
+	nb, err := json.ParseNumber(b)
 	if err != nil {
 		return false
 	}
